@@ -68,6 +68,8 @@ var apiFiles = []treeFile{
 	{Name: "usesfn", Src: "fn:{{ who.shout() }}|{{ items.count() }}"},
 	{Name: "bad-in-unused-arg", Src: "PARTIAL-OUTPUT-MARKER @component(\"~whoami\", {unused: items[0] / 0}) after"},
 	{Name: "bad-in-shadowed-arg", Src: "PARTIAL-OUTPUT-MARKER @component(\"~whoami\", {who: who.nope()}) after"},
+	// a component argument that fails with one data map and is fine with the next (the page stays what it is)
+	{Name: "argdep", Src: "arg:@component(\"~whoami\", {k: u.name.upper()})|@component(\"~whoami\")"},
 	// number literals that reach ++ / -- (a loaded program is evaluated many times; a literal is the same number every time)
 	{Name: "floatdec", Src: "dec:{{ p = 10.5 }}{{ p-- }}|{{ p }}|@for(x = 2.5; x > 0.0; x--){{ x }};@end|{{ n = 3 }}{{ n++ }}{{ n }}|{{ 1.5-- }}{{ 7++ }}"},
 	// one template, rendered with arrays of different lengths: the loop object of every pass belongs to this render
@@ -212,6 +214,7 @@ var fixedSigs = map[apiOp]string{
 	{"String", "polyS"}:          "OUT poly:3|abc|3",
 	{"String", "floatdec"}:       "OUT dec:9.5|10.5|2.5;1.5;0.5;|43|0.58",
 	{"String", "usesfn"}:         "OUT fn:BO!|3, 0",
+	{"String", "argOk"}:          "OUT arg:Bo/3|Bo/3",
 	{"String", "lastA"}:          "OUT last:1a.^|0",
 	{"String", "lastB"}:          "OUT last:1a,^2b.|01",
 	{"String", "lastC"}:          "OUT last:1a,^2b,3c.|012",
@@ -278,6 +281,10 @@ func (e *apiEnv) run(o apiOp) (sig string, body string, ok bool) {
 		page, data["v"] = "poly", []string{"x", "y"}
 	case "polyI":
 		page, data["v"] = "poly", 1234
+	case "argOk":
+		page, data["u"] = "argdep", map[string]any{"name": "n"}
+	case "argBad":
+		page, data["u"] = "argdep", 7
 	case "okbad": // the ok page with a value no template can see: this call fails, the page stays renderable
 		page, data["ch"] = "ok", make(chan int)
 	case "lastA":
